@@ -285,4 +285,4 @@ def run_schedule(case):
         config.no_cache = saved
     return {'events': ctl.events, 'status': status, 'unfinished': unfinished,
             'anomalies': ctl.anomalies, 'n_objs': len(ctl.objs), 'blocked_steps': blocked,
-            'final_keys': sorted(dict.keys(cache._cache))}
+            'final_keys': sorted(repr(k) for k in dict.keys(cache._cache))}
